@@ -540,7 +540,9 @@ def run_fn_case(case: dict) -> dict:
     if case.get("retval_same_as"):
         retbox[0] = args[case["retval_same_as"]]     # the body hands back the very object it was given
     pos = [args[n] for n in case.get("positional", [])]
-    kw = {k: v for k, v in args.items() if k not in case.get("positional", [])}
+    # keyword arguments in the order the caller writes them (`kw_order`: any permutation; default: declaration order)
+    kw_names = [k for k in case.get("kw_order", []) if k in args] + [k for k in args if k not in case.get("kw_order", [])]
+    kw = {k: args[k] for k in kw_names if k not in case.get("positional", [])}
     out: dict
     warm = case.get("warmup")
     if warm is not None and not identity:
